@@ -224,6 +224,9 @@ def run(ctx: C.Ctx):
     some_boards = [rng.choice(sorted(bs)) for bs in plats.values() for _ in range(12 if thorough else 5)]
     some_nm = rng.sample(sorted(board_nm), 60 if thorough else 12)
     ncases += [["validate", v, b] for v in sorted(plat_nm) for b in some_boards + some_nm]
+    # ... each kind of name in the other position (platform near-misses as boards, board near-misses as platforms) ...
+    ncases += [["validate", p, v] for v in sorted(plat_nm) for p in plats]
+    ncases += [["validate", v, b] for v in rng.sample(sorted(board_nm), 3000 if thorough else 600) for b in some_boards[:2]]
     # ... and near-miss x near-miss
     pn_sample = rng.sample(sorted(plat_nm), min(len(plat_nm), 40 if thorough else 8))
     ncases += [["validate", p, v] for v in rng.sample(sorted(board_nm), 20000 if thorough else 1500) for p in pn_sample[:(8 if thorough else 4)]]
